@@ -5,6 +5,9 @@ import (
 	"math/rand"
 	"strings"
 
+	"github.com/corazawaf/coraza/v3/experimental/plugins/plugintypes"
+	"github.com/corazawaf/coraza/v3/internal/operators"
+
 	"github.com/corazawaf/coraza/v3/experimental/plugins/macro"
 	"github.com/corazawaf/coraza/v3/verifharness/vh"
 )
@@ -232,6 +235,10 @@ func (r *runner) genPm(rng *rand.Rand) {
 		if rng.Intn(5) == 0 {
 			ps = append(ps, ps[0]) // duplicate
 		}
+		if rng.Intn(6) == 0 { // a phrase with inner white space that is not the separator
+			k := rng.Intn(len(ps))
+			ps[k] = ps[k] + pick(rng, []string{"\t", "\n", "\f", "\v", "\r"}) + mkPhrase(al, 1+rng.Intn(3))
+		}
 		if rng.Intn(6) == 0 {
 			ps = append(ps, ps[0]+mkPhrase(al, 2)) // one phrase extends another
 		}
@@ -289,6 +296,21 @@ func (r *runner) genPm(rng *rand.Rand) {
 			v = noise(rng.Intn(20))
 		}
 		r.runPm(arg, v, rng.Intn(3) > 0)
+	}
+	// the argument is split on the single byte 0x20 only: tab, newline, VT, FF, CR, NEL (U+0085),
+	// NBSP (U+00A0) and other Unicode spaces stay inside a phrase; inputs hold the whole phrase
+	// and only each fragment
+	for _, ws := range []string{"\t", "\n", "\v", "\f", "\r", "\xc2\x85", "\xc2\xa0", "\xe2\x80\x83", "\xe3\x80\x80", "\x00", "\x1f"} {
+		for _, pr := range [][2]string{{"drop", "table"}, {"a", "b"}, {"Ab", "cD"}} {
+			phrase := pr[0] + ws + pr[1]
+			for _, arg := range []string{phrase, "zz " + phrase, phrase + " zz", "zz  " + phrase + ws + "q yy"} {
+				for _, v := range []string{phrase, "x" + strings.ToUpper(pr[0]) + ws + pr[1] + "y", pr[0], pr[1], "x" + pr[0] + " " + pr[1], pr[0] + ws, ws + pr[1], pr[0] + pr[1], "q", ws} {
+					if cfg.Thorough() || arg == phrase || len(v)%2 == 0 {
+						r.runPm(arg, v, len(v)%3 == 0)
+					}
+				}
+			}
+		}
 	}
 	// empty phrases only / no phrase at all
 	for _, a := range []string{"", " ", "   ", "a ", " a", "a  b", "foo  fob", "foo  Fob bar", "  ab   cd  "} {
@@ -437,17 +459,59 @@ func (r *runner) genRx(rng *rand.Rand) {
 	cfg := r.cfg
 	values := []string{"\xff\nb", "a\nb\xff", "x\xff\n\n", "\x80\x81\n", "\xfe", "abcdefghi", "abcdefghijkl", "abcdefghij", "ac", "abc", "b", "a", "abab", "a\nb", "a\nb\nc", "ABab", "", "x12yz_", "aaabbb",
 		"0123456789abcdef", "\xc3\xa9!", "\xff", "xa\xffb", "abcdefghijk", "b\n"}
-	for _, p := range rxPatterns {
-		for _, v := range values {
+	for i, p := range rxPatterns {
+		for j, v := range values {
+			// the documented semantics hold whatever SecRxPreFilter says: alternate the setting
+			r.pf = cfg.Thorough() || (i+j)%2 == 0
 			r.runRx(p, v, true)
+			r.pf = false
+			if cfg.Thorough() || (i+j)%2 == 1 {
+				r.runRx(p, v, true)
+			}
 			if len(v)%3 == 0 {
 				r.runRx(p, v, false)
 			}
 		}
 	}
-	for i := 0; i < cfg.Pick(300, 5000); i++ {
-		r.runRx(pick(rng, rxPatterns), randFrom(rng, "abcdefghijkl\nAB1_", rng.Intn(14)), rng.Intn(4) > 0)
+	// ^literal$ patterns (exact-match fast path when the prefilter is on): (?sm) makes ^ and $
+	// line anchors, so the literal on a line of its own at the start / middle / end matches
+	exact := []string{"^Upload$", "(?i)^upload$", "^a$", "^ab$", "^(?i:Upload)$", "^Upload", "Upload$", "^Up.oad$"}
+	lines := []string{"Upload", "Upload\nmore", "more\nUpload", "\nUpload", "Upload\n", "a\nUpload\nb", "a\nUpload\nb\n", "\nUpload\n",
+		"upload\nx", "x\nUPLOAD", "UPLOAD", "Uploadx", "xUpload", "", "\n", "a", "a\nb", "b\na", "ab\n", "x\nab", "Up\noad", "more\nUploads", "Upload\r\nmore"}
+	for _, p := range exact {
+		for _, v := range lines {
+			for _, pf := range []bool{true, false} {
+				r.pf = pf
+				r.runRx(p, v, true)
+				// the operator against the regexp engine, without the model in between
+				r.oracleN++
+				_, want, _ := rxOracle(p, v)
+				op, err := operators.Get("rx", plugintypes.OperatorOptions{Arguments: p, RxPreFilterEnabled: pf})
+				if err == nil {
+					tx := newTx(false, nil)
+					if op.Evaluate(tx, v) != want {
+						r.fail("c15-rx-line-anchors", "@rx differs from regexp (?sm)pattern (line anchors / prefilter setting)",
+							&caseJSON{Kind: "rx", ArgHex: hx(p), ValueHex: hx(v), Prefilter: pf})
+					}
+					tx.Close()
+				}
+			}
+		}
 	}
+	r.pf = false
+	for i := 0; i < cfg.Pick(300, 5000); i++ {
+		r.pf = i%2 == 0
+		pat := pick(rng, rxPatterns)
+		if i%5 == 0 {
+			pat = pick(rng, exact)
+		}
+		v := randFrom(rng, "abcdefghijkl\nAB1_", rng.Intn(14))
+		if i%5 == 0 {
+			v = pick(rng, []string{"", "x\n", "\n"}) + pick(rng, []string{"Upload", "upload", "a", "ab", "UpXoad"}) + pick(rng, []string{"", "\n", "\ny", "\n\n"})
+		}
+		r.runRx(pat, v, rng.Intn(4) > 0)
+	}
+	r.pf = false
 	// implementation-side expectations stated by the property: RE2 semantics with dot matching newline
 	exp := []struct {
 		p, v string
@@ -523,7 +587,7 @@ func (r *runner) genRules(rng *rand.Rand) {
 	fixed := []rc{
 		{"^(a)(b)(c)(d)(e)(f)(g)(h)(i)$", "abcdefghi"}, {"@rx ^(a)(b)(c)(d)(e)(f)(g)(h)(i)$", "abcdefghi"},
 		{"!@rx ^(a)(b)$", "ab"}, {"!@rx ^(a)(b)$", "xy"}, {"(a)(b)?(c)", "ac"}, {"", "anything"}, {"!", "anything"},
-		{"@pm abc bc", "xABCbc bc bc bc bc bc bc bc bc bc bc"}, {"!@pm abc", "xabcx"}, {"!@pm abc", "xyz"}, {"@pm a b", ""},
+		{"@pm abc bc", "xABCbc bc bc bc bc bc bc bc bc bc bc"}, {"@pm a\tb zz", "a"}, {"@pm a\tb zz", "xA\tBy"}, {"@pm drop\ftable", "table"}, {"!@pm abc", "xabcx"}, {"!@pm abc", "xyz"}, {"@pm a b", ""},
 		{"@streq %{tx.x}", "abc"}, {"!@streq %{tx.x}", "abc"}, {"!@streq %{tx.x}", "abd"}, {"@contains b", "abc"}, {"!@contains b", "abc"},
 		{"@beginsWith %{tx.x}", "abcd"}, {"@endsWith c", "abc"}, {"@within a,abc,d", "abc"}, {"!@within GET,POST", "PUT"},
 		{"@eq 3", "3"}, {"!@eq 3", "4"}, {"@ge 3", "3"}, {"@gt 3", "3"}, {"@le 3", "4"}, {"@lt 3", "2"},
@@ -532,9 +596,17 @@ func (r *runner) genRules(rng *rand.Rand) {
 		{"@unconditionalMatch", ""}, {"!@unconditionalMatch", "a"}, {"@noMatch", "a"}, {"!@noMatch", "a"}, {"@nosuch a", "a"}, {"@streq", "a"},
 		{"@Contains b", "abc"}, {"abc", "xABCx"}, {"(?i)abc", "xABCx"}, {"!abc", "xABCx"}, {"@contains  b ", "a b c"},
 	}
+	for _, v := range []string{"Upload", "Upload\nmore", "more\nUpload", "\nUpload", "a\nUpload\nb", "Upload\n", "upload", "Uploadx"} {
+		fixed = append(fixed, rc{"^Upload$", v}, rc{"!@rx ^Upload$", v}, rc{"@rx (?i)^upload$", v})
+	}
 	for _, c := range fixed {
 		for _, capt := range []bool{true, false} {
 			r.runRule(c.op, tx, c.v, capt, "")
+		}
+		if _, name, _ := modelParse(c.op); name == "rx" {
+			r.pf = true
+			r.runRule(c.op, tx, c.v, true, "")
+			r.pf = false
 		}
 	}
 	ops := []string{"streq", "contains", "strmatch", "beginsWith", "endsWith", "within", "eq", "ge", "gt", "le", "lt", "pm",
@@ -585,7 +657,9 @@ func (r *runner) genRules(rng *rand.Rand) {
 		if strings.Contains(arg, "tx.n") {
 			txv = [][2]string{{"x", hx("3")}, {"n", hx(pick(rng, []string{"3", "-3", "4"}))}}
 		}
+		r.pf = name == "rx" && rng.Intn(2) == 0
 		r.runRule(text, txv, v, rng.Intn(4) > 0, "")
+		r.pf = false
 	}
 	_ = fmt.Sprint
 }
